@@ -440,6 +440,7 @@ type Op struct {
 	BatchVia    string      `json:"batchvia,omitempty"`    // CreateBatchSize set through "session" or "config" (Create then runs in batches, association inserts too)
 	FullVia     string      `json:"fullvia,omitempty"`     // updates-full: FullSaveAssociations through Config instead of Session
 	Config      []string    `json:"config,omitempty"`      // gorm.Config switches that must be transparent: PrepareStmt, TranslateError
+	OnConn      bool        `json:"onconn,omitempty"`      // run inside db.Connection(func(tx)): the handle is bound to one *sql.Conn
 	InTx        bool        `json:"intx,omitempty"`        // CreateInBatches inside db.Transaction (its own transaction becomes a SAVEPOINT)
 	Hist        []string    `json:"hist,omitempty"`        // writes made through the handle before the operation: prior-write | prior-failed-write
 	Plugin      bool        `json:"plugin,omitempty"`      // callbacks registered into the create/update/delete pipelines; they fail like hooks
@@ -559,6 +560,17 @@ func ownerPtrs(specs []OwnerSpec) []*Owner {
 
 // exec runs the operation on db with a freshly built record graph.
 func (op Op) exec(db *gorm.DB) *gorm.DB {
+	if op.OnConn {
+		var res *gorm.DB
+		err := db.Connection(func(tx *gorm.DB) error {
+			res = op.exec1(tx)
+			return nil
+		})
+		if res == nil {
+			return &gorm.DB{Error: err}
+		}
+		return res
+	}
 	if !op.InTx {
 		return op.exec1(db)
 	}
@@ -1420,6 +1432,9 @@ func opShapes(op Op, multi bool) []string {
 	if op.InTx {
 		shape["history:inside-transaction(savepoint)"] = true
 	}
+	if op.OnConn {
+		shape["handle:db.Connection"] = true
+	}
 	for _, h := range op.Hist {
 		shape["history:"+h] = true
 	}
@@ -1691,7 +1706,11 @@ func drawGraph(t *rapid.T, o *OwnerSpec, ids *idSources, small bool) {
 	}
 	// rarely: one relation with more children than the slices gorm collects
 	// association values in are pre-sized for (cap 10)
-	if ids != nil && !small && rapid.IntRange(0, 24).Draw(t, "wide") == 0 {
+	wideOdds := 59 // expensive (>= 44 more hook positions): rarer in the quick tier
+	if harness.Thorough() {
+		wideOdds = 24
+	}
+	if ids != nil && !small && rapid.IntRange(0, wideOdds).Draw(t, "wide") == 0 {
 		switch rapid.SampledFrom([]string{"items", "tags", "notes"}).Draw(t, "wide-relation") {
 		case "items":
 			for len(o.Items) < 11 {
@@ -1929,6 +1948,7 @@ func drawCase(t *rapid.T) (Case, *content) {
 		op.Select = rapid.SampledFrom(deleteSelects).Draw(t, "select")
 		op.Unscoped = rapid.IntRange(0, 3).Draw(t, "unscoped") == 0
 	}
+	op.OnConn = !op.InTx && rapid.IntRange(0, 7).Draw(t, "on-connection") == 0
 	// Select / Omit of columns and associations (the unique code is always
 	// among the selected columns)
 	switch {
@@ -1980,6 +2000,10 @@ const rule = "C05: rapid draws an initial database (0-3 owner graphs, loose comp
 	"One case in five of the eligible kinds fails by itself instead (unique-index collision of the last record, no fault injected; must report the constraint error and apply nothing). " +
 	"With RETURNING (dialect default for inserts; Clauses(clause.Returning{}) on half of the save/update/delete operations) every driver.Rows.Next of the operation is failed in turn too (a statement failing while it is executed lazily, visible only through rows.Err()). " +
 	"Before the operation 0-2 sessions with a drawn option set (every field of gorm.Session, with and without NewDB) are derived from the default handle and half of them used for a read; audit-writing hooks may write through tx.Session(NewDB+SkipDefaultTransaction). " +
+	"Further drawn dimensions (each with a class label): value forms (pointer/slice/slice of pointers/array/map/*map/[]map/*[]map; Updates with map, struct, Model(slice); Update with gorm.Expr; UpdateColumn(s); Delete by struct/slice/condition/primary keys/Model()+empty value/sub-query handle; soft-deleted root with and without Unscoped), " +
+	"clauses (OnConflict DoNothing/UpdateAll/column list, Select/Omit of columns, associations, nested paths and Tags.*), options (CreateBatchSize and FullSaveAssociations through Session or Config, PrepareStmt, TranslateError), " +
+	"type shapes (belongs-to by value, has-many of pointers, polymorphic has-one by value, many2many back-reference cycle, SetupJoinTable join model with hooks, >10 children), " +
+	"handle histories (derived sessions, a prior successful / failed write through the handle, db.Connection, CreateInBatches inside db.Transaction = SAVEPOINT) and plugin callbacks registered inside the pipelines failing like hooks. " +
 	"One evaluation = one faulted run. Non-trivial = the operation writes >=2 tables and the fault lands after the first write statement succeeded. " +
 	"Distinct = initial content + operation + record graph + fault position."
 
